@@ -330,7 +330,19 @@ Definition first_timeout_ok (c : c5) (t : Z) : bool :=
               end
   end.
 
-Definition cstep5 (c : c5) (e : event) : option c5 :=
+(* Which of the expensive clauses are enforced.  check_c05 enforces all of them; the flags exist
+   so that theorems about the model can be stated for the part of the checker that has been
+   proved so far (a checker with fewer clauses accepts more traces, see checks5_mono). *)
+Record c5flags := {
+  f_tmin : bool;       (* a timer that fires has a minimal deadline *)
+  f_quiet : bool;      (* ... and fires only right after a zero-timeout poll that reported nothing *)
+  f_timeout : bool;    (* the poll timeouts (first poll of a run, later polls) *)
+  f_progress : bool    (* a run that could run something did *)
+}.
+Definition c5_strict : c5flags := {| f_tmin := true; f_quiet := true; f_timeout := true; f_progress := true |}.
+Definition c5_core : c5flags := {| f_tmin := false; f_quiet := false; f_timeout := false; f_progress := false |}.
+
+Definition cstep5 (fl : c5flags) (c : c5) (e : event) : option c5 :=
   match e with
   | ERegister r k =>
     match k with
@@ -370,12 +382,18 @@ Definition cstep5 (c : c5) (e : event) : option c5 :=
     | MSpin => mk PhLoop
     | MRun =>
       if d_drain c then None else
-      match d_phase c with
-      | PhStart =>
-        if first_timeout_ok c timeout then mk (if retry then PhFirst timeout else PhLoop) else None
-      | PhFirst want => if Z.eqb timeout want then mk (if retry then PhFirst want else PhLoop) else None
-      | PhLoop => if Z.eqb timeout 0 then mk PhLoop else None
-      end
+      let ok := match d_phase c with
+                | PhStart => first_timeout_ok c timeout
+                | PhFirst want => Z.eqb timeout want
+                | PhLoop => Z.eqb timeout 0
+                end in
+      if negb (f_timeout fl) || ok then
+        mk (match d_phase c with
+            | PhStart => if retry then PhFirst timeout else PhLoop
+            | PhFirst want => if retry then PhFirst want else PhLoop
+            | PhLoop => PhLoop
+            end)
+      else None
     end
   | EInvoke r =>
     if d_incb c || d_stop c then None else
@@ -403,8 +421,8 @@ Definition cstep5 (c : c5) (e : event) : option c5 :=
           | Some (_, (_, due)), Some m =>
             (* a timer: no immediate pending, the poll just before reported nothing, and no
                live timer has an earlier deadline *)
-            if is_nil (d_imms c) && (due <=? m)%N &&
-               match d_prev c with PvPoll0Clock => true | _ => false end
+            if is_nil (d_imms c) && (negb (f_tmin fl) || (due <=? m)%N) &&
+               (negb (f_quiet fl) || match d_prev c with PvPoll0Clock => true | _ => false end)
             then fire (d_imms c) (d_nets c) (drop_tmr r (d_tmrs c)) else None
           | _, _ => None
           end
@@ -451,7 +469,7 @@ Definition cstep5 (c : c5) (e : event) : option c5 :=
             | None, _ => true
             end))
         else true in
-      if status_ok && progress_ok then
+      if status_ok && (negb (f_progress fl) || progress_ok) then
         Some {| d_imms := d_imms c; d_nets := d_nets c; d_tmrs := d_tmrs c; d_clock := d_clock c;
                 d_prev := PvNone; d_mode := MOut; d_phase := PhStart; d_drain := false;
                 d_incb := false; d_intr := false; d_intr_run := false; d_stop := false;
@@ -474,14 +492,20 @@ Definition cstep5 (c : c5) (e : event) : option c5 :=
   | ECancelBogus _ _ | EDone | EInvokeBogus => Some (same5 c)
   end.
 
-Fixpoint csteps5 (c : c5) (t : trace) : option c5 :=
+Fixpoint csteps5 (fl : c5flags) (c : c5) (t : trace) : option c5 :=
   match t with
   | [] => Some c
-  | e :: t' => match cstep5 c e with Some c' => csteps5 c' t' | None => None end
+  | e :: t' => match cstep5 fl c e with Some c' => csteps5 fl c' t' | None => None end
   end.
 
-Definition check_c05 (t : trace) : bool :=
-  match csteps5 c5_init t with Some _ => true | None => false end.
+Definition checks5 (fl : c5flags) (t : trace) : bool :=
+  match csteps5 fl c5_init t with Some _ => true | None => false end.
+
+(* the checker that is run on the implementation's trace: every clause *)
+Definition check_c05 (t : trace) : bool := checks5 c5_strict t.
+(* order of immediates, immediates before descriptors before timers, status and interrupt
+   handling, no poll while draining immediates *)
+Definition check_c05_core (t : trace) : bool := checks5 c5_core t.
 
 (* ====================================================================================== *)
 (* Part 4.  C14 (registrations): what a refused allocation inside a register call must     *)
